@@ -35,9 +35,8 @@ package types
 //@ func (c *CertificateBuildParams) Range
 //@   props C17
 //@   requires c != nil
-//@   requires c.FromBlock <= c.ToBlock
-//@   ensures[reject] (fromBlock < c.FromBlock || toBlock > c.ToBlock || fromBlock > toBlock) ==> result1 != nil && result0 == nil
-//@   ensures[accept] !(fromBlock < c.FromBlock || toBlock > c.ToBlock || fromBlock > toBlock) ==> result1 == nil && result0 != nil
+//@   ensures[reject] (!(fromBlock == c.FromBlock && toBlock == c.ToBlock) && (fromBlock < c.FromBlock || toBlock > c.ToBlock || fromBlock > toBlock)) ==> result1 != nil && result0 == nil
+//@   ensures[accept] ((fromBlock == c.FromBlock && toBlock == c.ToBlock) || !(fromBlock < c.FromBlock || toBlock > c.ToBlock || fromBlock > toBlock)) ==> result1 == nil && result0 != nil
 //@   ensures[identity] (fromBlock == c.FromBlock && toBlock == c.ToBlock) ==> result0 == c
 //@   ensures[range] result1 == nil ==> result0.FromBlock == fromBlock && result0.ToBlock == toBlock
 //@   ensures[scalars] result1 == nil ==> result0.CreatedAt == old(c.CreatedAt) && result0.RetryCount == old(c.RetryCount) && result0.LastSentCertificate == old(c.LastSentCertificate) && result0.AggchainProof == old(c.AggchainProof) && result0.L1InfoTreeRootFromWhichToProve == old(c.L1InfoTreeRootFromWhichToProve) && result0.L1InfoTreeLeafCount == old(c.L1InfoTreeLeafCount) && result0.CertificateType == old(c.CertificateType)
@@ -46,6 +45,8 @@ package types
 //@   ensures[claims-count] (result1 == nil && result0 != c) ==> len(result0.Claims) == cntC(old(seq(c.Claims)), fromBlock, toBlock, old(len(c.Claims)))
 //@   ensures[claims-order] (result1 == nil && result0 != c) ==> forall(k, 0, old(len(c.Claims)), keepBlk(old(c.Claims[k]).BlockNum, fromBlock, toBlock) ==> cntC(old(seq(c.Claims)), fromBlock, toBlock, k) < len(result0.Claims) && result0.Claims[cntC(old(seq(c.Claims)), fromBlock, toBlock, k)] == old(c.Claims[k]))
 //@   ensures[fresh] (result1 == nil && result0 != c) ==> fresh(result0)
+//@   ensures[claims-keep-their-global-index] (result1 == nil && forall(k, 0, old(len(c.Claims)), old(c.Claims[k]).GlobalIndex != nil)) ==> forall(j, 0, len(result0.Claims), result0.Claims[j].GlobalIndex != nil)
+//@   ensures[claims-stay-consistent-with-their-exit-roots] (result1 == nil && forall(k, 0, old(len(c.Claims)), old(c.Claims[k]).GlobalExitRoot == H(old(c.Claims[k]).MainnetExitRoot, old(c.Claims[k]).RollupExitRoot))) ==> forall(j, 0, len(result0.Claims), result0.Claims[j].GlobalExitRoot == H(result0.Claims[j].MainnetExitRoot, result0.Claims[j].RollupExitRoot))
 //@   ensures[input-unchanged] c.FromBlock == old(c.FromBlock) && c.ToBlock == old(c.ToBlock) && c.Bridges == old(c.Bridges) && c.Claims == old(c.Claims)
 //@   loop 0 invariant newCert != c && newCert != nil && fresh(newCert)
 //@   loop 0 invariant 0 <= rangeindex + 1 && rangeindex + 1 <= len(c.Bridges)
@@ -55,6 +56,8 @@ package types
 //@   loop 1 invariant newCert != c && newCert != nil && fresh(newCert)
 //@   loop 1 invariant 0 <= rangeindex + 1 && rangeindex + 1 <= len(c.Claims)
 //@   loop 1 invariant off(newCert.Claims) == 0
+//@   loop 1 invariant (forall(k, 0, len(c.Claims), c.Claims[k].GlobalIndex != nil)) ==> forall(j, 0, len(newCert.Claims), newCert.Claims[j].GlobalIndex != nil)
+//@   loop 1 invariant (forall(k, 0, len(c.Claims), c.Claims[k].GlobalExitRoot == H(c.Claims[k].MainnetExitRoot, c.Claims[k].RollupExitRoot))) ==> forall(j, 0, len(newCert.Claims), newCert.Claims[j].GlobalExitRoot == H(newCert.Claims[j].MainnetExitRoot, newCert.Claims[j].RollupExitRoot))
 //@   loop 1 invariant len(newCert.Claims) == cntC(seq(c.Claims), fromBlock, toBlock, rangeindex + 1)
 //@   loop 1 invariant forall(k, 0, rangeindex + 1, keepBlk(c.Claims[k].BlockNum, fromBlock, toBlock) ==> cntC(seq(c.Claims), fromBlock, toBlock, k) < len(newCert.Claims) && newCert.Claims[cntC(seq(c.Claims), fromBlock, toBlock, k)] == c.Claims[k])
 
